@@ -53,7 +53,7 @@ for opset in OPSETS:
     for fragment in (False, True):
         define(globals(), 'C12', 'independent_%s%s' % (opset, '_fragment' if fragment else ''), ['depth', 'multiple'],
                "return do_independent(%r, %r, depth, multiple)" % (opset, fragment), ['0 <= depth and 0 <= multiple'],
-               tier='quick' if (opset, fragment) in (('mixed', False), ('reads', True)) else 'thorough',
+               tier='quick' if (opset, fragment) in (('reads', False),) else 'thorough',
                timeout=3000, path_timeout=600, drives=CLI_DRIVES, stubs=STUBS,
                symbolic=['depth: ANY pipelining depth >= 0 (unbounded integer)', 'multiple: ANY Multiple Service Packet size limit >= 0 (unbounded integer)'],
                bounds='operation list %r (fragment=%r) through the real client over an in-process transport against the real simulator: for every depth '
@@ -176,7 +176,7 @@ def do_text(form, d0, d1, d2, e0, e1, h0, h1):
 
 for form in ('index', 'range', 'count', 'offset', 'write', 'write_cast', 'numeric', 'numeric_json', 'write_frag_offset'):
     define(globals(), 'C12', 'text_%s' % form, ['d0', 'd1', 'd2', 'e0', 'e1', 'h0', 'h1'], "return do_text(%r, d0, d1, d2, e0, e1, h0, h1)" % form,
-           ['0 <= d0 <= 9 and 0 <= d1 <= 9 and 0 <= d2 <= 9 and 0 <= e0 <= 9 and 0 <= e1 <= 9 and 0 <= h0 <= 21 and 0 <= h1 <= 21', 'd0 <= 8'],
+           ['0 <= d0 <= 8 and 0 <= d1 <= 9 and 0 <= d2 <= 3 and 0 <= e0 <= 2 and 0 <= e1 <= 9 and 0 <= h0 <= 21 and 14 <= h1 <= 17'],
            tier='quick' if form in ('range', 'write', 'numeric', 'offset') else 'thorough', timeout=3000, path_timeout=60,
            drives=['cpppo.server.enip.client.parse_operations', 'cpppo.server.enip.device.parse_path_elements', 'cpppo.server.enip.device.parse_path_component',
                    'cpppo.server.enip.device.parse_int', 'cpppo.server.enip.client.CIP_TYPES validators'],
